@@ -187,10 +187,10 @@ def check_wide(c, stats):
 # ------------------------------------------------------------------------------------------------
 # inspect round trip
 # ------------------------------------------------------------------------------------------------
-HDR_DATE = ['Date', 'Transaction Date', 'Posting Date', 'Trans Date', 'date', 'DATE', 'Trans_Date']
-HDR_DESC = ['Description', 'Merchant', 'Payee', 'Memo', 'Name', 'Merchant Name', 'description']
-HDR_AMT = ['Amount', 'Debit', 'Charge', 'Transaction Amount', 'Payment', 'amount', 'AMOUNT (USD)']
-HDR_LOC = ['Location', 'City', 'State', 'City/State', 'Region']
+HDR_DATE = ['Date', 'Transaction Date', 'Posting Date', 'Trans Date', 'date', 'DATE', 'Trans_Date', 'Payment Date', 'Statement Date', 'Charge Date']
+HDR_DESC = ['Description', 'Merchant', 'Payee', 'Memo', 'Name', 'Merchant Name', 'description', 'Charge Description', 'Debit Memo', 'Payee Name', 'Payment Description']
+HDR_AMT = ['Amount', 'Debit', 'Charge', 'Transaction Amount', 'Payment', 'amount', 'AMOUNT (USD)', 'Payment Amount', 'Charge Amount', 'Debit Amount']
+HDR_LOC = ['Location', 'City', 'State', 'City/State', 'Region', 'Merchant State', 'Merchant City']
 HDR_DECOY = ['Reference', 'Card No.', 'Category', 'Balance', 'Type', 'Check #', 'Notes, misc', 'Account "X"', 'Posted', 'Currency', 'Status', 'Foreign Fee']
 
 inspect_st = st.fixed_dictionaries({
